@@ -128,6 +128,29 @@ pub trait DynTree: Send + Sync {
     fn into_iter_collect(self: Box<Self>) -> String;
 }
 
+/// amounts of the `nth` / `nth_back` letters (see `opsOf` in the Lean driver)
+fn nth_amount(c: char) -> Option<usize> {
+    match c.to_ascii_lowercase() {
+        't' => Some(1),
+        'u' => Some(2),
+        'v' => Some(5),
+        'w' => Some(64),
+        'x' => Some(255),
+        'y' => Some(256),
+        'z' => Some(1000),
+        _ => None,
+    }
+}
+
+fn o_item<V: Into<u128>>(v: Option<V>) -> String {
+    match v {
+        Some(v) => format!("S:{}", v.into()),
+        None => "N".into(),
+    }
+}
+
+/// history of calls on a double-ended exact-size iterator: `n` next, `b` next_back, `l` len,
+/// `c` by_ref().count(), `a` by_ref().last(), `t..z` nth(k), `T..Z` nth_back(k)
 fn iterhist<I>(mut it: I, ops: &str) -> String
 where
     I: DoubleEndedIterator + ExactSizeIterator,
@@ -136,15 +159,35 @@ where
     let mut out = vec![];
     for c in ops.chars() {
         match c {
-            'n' => out.push(match it.next() {
-                Some(v) => format!("S:{}", v.into()),
-                None => "N".into(),
-            }),
-            'b' => out.push(match it.next_back() {
-                Some(v) => format!("S:{}", v.into()),
-                None => "N".into(),
-            }),
-            _ => out.push(format!("V:{}", it.len())),
+            'n' => out.push(o_item(it.next())),
+            'b' => out.push(o_item(it.next_back())),
+            'c' => out.push(format!("V:{}", it.by_ref().count())),
+            'a' => out.push(o_item(it.by_ref().last())),
+            _ => match nth_amount(c) {
+                Some(k) if c.is_ascii_uppercase() => out.push(o_item(it.nth_back(k))),
+                Some(k) => out.push(o_item(it.nth(k))),
+                None => out.push(format!("V:{}", it.len())),
+            },
+        }
+    }
+    out.join(" ")
+}
+
+/// the same for one-ended iterators: `n` next, `c` count, `a` last, `t..z` nth(k)
+pub fn fwdhist<I>(mut it: I, ops: &str) -> String
+where
+    I: Iterator,
+    I::Item: Into<u128>,
+{
+    let mut out = vec![];
+    for c in ops.chars() {
+        match c {
+            'c' => out.push(format!("V:{}", it.by_ref().count())),
+            'a' => out.push(o_item(it.by_ref().last())),
+            _ => match nth_amount(c) {
+                Some(k) => out.push(o_item(it.nth(k))),
+                None => out.push(o_item(it.next())),
+            },
         }
     }
     out.join(" ")
@@ -499,6 +542,16 @@ macro_rules! bv_q {
             "zeros" => o_list(b.zeros().map(|x| x as u128)),
             "ones_with_pos" => o_list(b.ones_with_pos(g(0)).map(|x| x as u128)),
             "zeros_with_pos" => o_list(b.zeros_with_pos(g(0)).map(|x| x as u128)),
+            "ones_after" => {
+                let mut it = b.ones_with_pos(g(0));
+                while it.next().is_some() {}
+                [it.next(), it.next(), it.next()].iter().map(|x| o_opt(*x)).collect::<Vec<_>>().join(" ")
+            }
+            "zeros_after" => {
+                let mut it = b.zeros_with_pos(g(0));
+                while it.next().is_some() {}
+                [it.next(), it.next(), it.next()].iter().map(|x| o_opt(*x)).collect::<Vec<_>>().join(" ")
+            }
             _ => "bad-op".into(),
         }
     }};
@@ -552,6 +605,16 @@ macro_rules! da_q {
             "zeros" => o_list(d.zeros().map(|x| x as u128)),
             "ones_with_pos" => o_list(d.ones_with_pos(g(0)).map(|x| x as u128)),
             "zeros_with_pos" => o_list(d.zeros_with_pos(g(0)).map(|x| x as u128)),
+            "ones_after" => {
+                let mut it = d.ones_with_pos(g(0));
+                while it.next().is_some() {}
+                [it.next(), it.next(), it.next()].iter().map(|x| o_opt(*x)).collect::<Vec<_>>().join(" ")
+            }
+            "zeros_after" => {
+                let mut it = d.zeros_with_pos(g(0));
+                while it.next().is_some() {}
+                [it.next(), it.next(), it.next()].iter().map(|x| o_opt(*x)).collect::<Vec<_>>().join(" ")
+            }
             "iter" => o_list(d.iter().map(|x| x as u128)),
             _ => "bad-op".into(),
         }
@@ -953,6 +1016,8 @@ impl Interp {
                 "get_unchecked" => o_val(unsafe { q.get_unchecked(g(0)) } as usize),
                 "iter" => o_list(q.iter().map(|x| x as u128)),
                 "into_iter" => o_list(q.clone().into_iter().map(|x| x as u128)),
+                "fwdhist" => fwdhist(q.iter(), args.first().copied().unwrap_or("")),
+                "fwdhist_into" => fwdhist(q.clone().into_iter(), args.first().copied().unwrap_or("")),
                 _ => "bad-op".into(),
             },
             Slot::Qvb(qb) => {
@@ -962,13 +1027,20 @@ impl Interp {
                     "is_empty" => o_val(q.is_empty() as usize),
                     "get" => o_opt(q.get(g(0)).map(|x| x as usize)),
                     "iter" => o_list(q.iter().map(|x| x as u128)),
+                    "fwdhist" => fwdhist(q.iter(), args.first().copied().unwrap_or("")),
                     _ => "bad-op".into(),
                 }
             }
+            Slot::Rsq256(r, _) if op == "fwdhist" => fwdhist(r.iter(), args.first().copied().unwrap_or("")),
+            Slot::Rsq512(r, _) if op == "fwdhist" => fwdhist(r.iter(), args.first().copied().unwrap_or("")),
+            Slot::Rsq256(r, _) if op == "fwdhist_into" => fwdhist(r.clone().into_iter(), args.first().copied().unwrap_or("")),
+            Slot::Rsq512(r, _) if op == "fwdhist_into" => fwdhist(r.clone().into_iter(), args.first().copied().unwrap_or("")),
             Slot::Rsq256(r, _) => rsq_q!(r, op, g),
             Slot::Rsq512(r, _) => rsq_q!(r, op, g),
             Slot::Bv(b, _) => match op {
                 "into_iter" => o_list(b.clone().into_iter().map(|x| x as u128)),
+                "fwdhist" => fwdhist(b.iter().map(|x| x as u8), args.first().copied().unwrap_or("")),
+                "fwdhist_into" => fwdhist(b.clone().into_iter().map(|x| x as u8), args.first().copied().unwrap_or("")),
                 "n_lines" => o_val(b.n_lines()),
                 "prefetch_line" => {
                     b.prefetch_line(g(0));
@@ -997,10 +1069,14 @@ impl Interp {
             },
             Slot::Bvm(b, _) => match op {
                 "into_iter" => o_list(b.clone().into_iter().map(|x| x as u128)),
+                "fwdhist" => fwdhist(b.iter().map(|x| x as u8), args.first().copied().unwrap_or("")),
+                "fwdhist_into" => fwdhist(b.clone().into_iter().map(|x| x as u8), args.first().copied().unwrap_or("")),
                 _ => bv_q!(b, op, g),
             },
             Slot::Rsn(r, _) => rsbin_q!(r, op, g, wide = no),
             Slot::Rsw(r, _) => rsbin_q!(r, op, g, wide = yes),
+            Slot::Da0(d, _) if op == "fwdhist" => fwdhist(d.iter().map(|x| x as u8), args.first().copied().unwrap_or("")),
+            Slot::Da1(d, _) if op == "fwdhist" => fwdhist(d.iter().map(|x| x as u8), args.first().copied().unwrap_or("")),
             Slot::Da0(d, _) => da_q!(d, op, g),
             Slot::Da1(d, _) => da_q!(d, op, g),
             Slot::Tree(t, _) => match op {
